@@ -21,7 +21,8 @@ def pool_for(reg):
     known = ["::".join(ips[0]), "::".join(ips[-1])]
     deep = max(ips, key=len)
     unknown = ["::".join(deep[1:]), "other::" + deep[-1], deep[-1], "no::such::Type"]
-    return known + [u for u in unknown if u.split("::") not in ips]
+    prelude = [t["path"][0] for t in reg if len(t["path"]) == 1][:1]        # a single-segment prelude path of the registry is a known path too
+    return known + prelude + [u for u in unknown if u.split("::") not in ips]
 
 def expected(reg, entries, substs):
     paths = [t["path"] for t in reg]
@@ -107,7 +108,7 @@ def make_family(name, reg0, nfree, hash_order):
 
 def families(eng, tier, seed):
     C = corpus(); fams = []
-    for n in ("modules", "enum", "generics"):
+    for n in ("modules", "enum", "generics", "collections"):
         fams.append(make_family("validate-%s" % n, C[n], 2 if tier == "quick" else 3, "fork" if n != "generics" or tier == "thorough" else "reversed"))
     return fams
 
